@@ -212,3 +212,77 @@ func c17Resource(a vh.Args, r *vh.Result, rng *vh.Rand) error {
 	}
 	return nil
 }
+
+// c17Large: batches whose bytes exceed the sizes a reader might buffer by (64 KiB, 1 MiB, 4 MiB):
+// a 12 MiB file of 256 KiB chunks verified with one worker (5 chunks = 1.25 MiB per batch) and a
+// file of 1.5 MiB chunks (every chunk larger than 1 MiB); one byte is altered in every chunk in
+// turn (in place), and every altered file must be rejected for every worker count tried.
+func c17Large(a vh.Args, r *vh.Result, rng *vh.Rand) error {
+	desync.Digest = desync.SHA256{}
+	name := filepath.Join(a.Work, "large.file")
+	defer os.Remove(name)
+	type cfg struct{ chunk, n int }
+	cfgs := []cfg{{256 << 10, 48}, {1536 << 10, 8}}
+	if a.Tier == "thorough" {
+		cfgs = append(cfgs, cfg{64 << 10, 192}, cfg{4<<20 + 3, 4})
+	}
+	for _, cf := range cfgs {
+		blob := rng.Bytes(cf.chunk * cf.n)
+		sizes := make([]int, cf.n)
+		for i := range sizes {
+			sizes[i] = cf.chunk
+		}
+		idx := buildIndex(blob, sizes)
+		if err := os.WriteFile(name, blob, 0644); err != nil {
+			return err
+		}
+		f, err := os.OpenFile(name, os.O_RDWR, 0)
+		if err != nil {
+			return err
+		}
+		ns := []int{1, 2}
+		verify := func(n int) string {
+			if err := desync.VerifyIndex(context.Background(), name, idx, n, desync.NullProgressBar{}); err != nil {
+				return "err"
+			}
+			return "nil"
+		}
+		for _, n := range ns {
+			r.Count(fmt.Sprintf("large|%d|%d|%d|none", cf.chunk, cf.n, n), true)
+			if got := verify(n); got != "nil" {
+				r.Fail("predicate", "rejects-matching-file", fmt.Sprintf("large file (%d chunks of %d bytes), n=%d: the matching file was rejected", cf.n, cf.chunk, n),
+					map[string]interface{}{"kind": "large", "chunk": cf.chunk, "chunks": cf.n, "n": n})
+			}
+		}
+		for ci := 0; ci < cf.n; ci++ {
+			pos := int64(ci*cf.chunk + rng.Intn(cf.chunk))
+			orig := []byte{blob[pos]}
+			if _, err := f.WriteAt([]byte{orig[0] ^ 0x08}, pos); err != nil {
+				f.Close()
+				return err
+			}
+			n := ns[ci%len(ns)]
+			if ci < 24 {
+				n = 1
+			}
+			r.Count(fmt.Sprintf("large|%d|%d|%d|%d", cf.chunk, cf.n, n, ci), true)
+			r.Dist("large:chunk-bytes:" + bucket(cf.chunk))
+			if got := verify(n); got != "err" {
+				r.Fail("predicate", "accepts-modified-file", fmt.Sprintf("large file (%d chunks of %d bytes), n=%d: one byte altered in chunk %d (offset %d), VerifyIndex returned nil", cf.n, cf.chunk, n, ci, pos),
+					map[string]interface{}{"kind": "large", "chunk": cf.chunk, "chunks": cf.n, "n": n, "altered_chunk": ci, "offset": pos, "seed": a.Seed})
+			}
+			if _, err := f.WriteAt(orig, pos); err != nil {
+				f.Close()
+				return err
+			}
+		}
+		f.Close()
+	}
+	return nil
+}
+
+// c17LargeReplay re-runs the large-batch family with fresh data (the predicate does not depend on
+// the bytes: every single-byte change must be rejected).
+func c17LargeReplay(a vh.Args, r *vh.Result, seed uint64) error {
+	return c17Large(a, r, vh.NewRand(seed+7))
+}
